@@ -167,9 +167,9 @@ func genSysHistory(rng *proto.Rng) sysIn {
 			if rng.Chance(1, 5) {
 				b := proto.Pick(rng, []string{"never", "stale", "failed", "failed-current", "replaced", "failed-stale"})
 				run.Ctrl[k] = b
-				if b == "never" || b == "stale" || b == "replaced" || b == "failed-stale" {
-					needTimeout = true
-				}
+				// every scripted behaviour can leave an object pending: also a plain "failed", when the object was reported Current
+				// before the sync event (it is reconciled at once, the Failed report then makes it pending again, for good)
+				needTimeout = true
 			}
 			if rng.Chance(1, 7) {
 				b := proto.Pick(rng, []string{"finalizer", "finalizer-gone"})
@@ -300,6 +300,9 @@ func sysHandWritten() []sysIn {
 		// manifests exported from another installation still carry its owning-inventory annotation
 		{Pre: pre, Runs: []sysRun{{Kind: "apply", Objs: []sysObj{{ID: soA.ID, Owner: "other-inv"}, soD}}, {Kind: "apply", Objs: []sysObj{}}, {Kind: "destroy"}}},
 		{Pre: pre, Runs: []sysRun{{Kind: "apply", Objs: []sysObj{{ID: soA.ID, Owner: "other-inv"}, {ID: soNs1.ID, Owner: "other-inv"}}, Opts: sysOpts{Policy: 0}}, {Kind: "destroy"}}},
+		// the same in-memory manifest with an apply-time substitution is applied again after its source has changed
+		{Pre: pre, Runs: []sysRun{{Kind: "apply", Objs: []sysObj{{ID: soA.ID, Rev: 1}, soM}}, {Kind: "apply", Objs: []sysObj{{ID: soA.ID, Rev: 2}, soM}},
+			{Kind: "apply", Objs: []sysObj{{ID: soA.ID, Rev: 3}, soM}, Opts: sysOpts{SSA: true}}, {Kind: "destroy"}}},
 		// ids the inventory cannot store
 		{Pre: pre, Runs: []sysRun{{Kind: "apply", Objs: []sysObj{soA, {ID: jid{"ns1", "a_b", "", "ConfigMap"}}}}, {Kind: "apply", Objs: []sysObj{soA}},
 			{Kind: "apply", Objs: []sysObj{soA, {ID: jid{"", "x__y", "rbac.authorization.k8s.io", "ClusterRole"}}}, Opts: sysOpts{StatusAll: true}}, {Kind: "destroy"}}},
